@@ -58,6 +58,9 @@ pub enum Case {
         del: f64,
         ctor: Ctor,
         script: Vec<u64>,
+        /// Plushy only: parent positions that hold a close marker instead of a (distinct) literal
+        #[serde(default)]
+        closes: Vec<bool>,
     },
 }
 
@@ -302,7 +305,7 @@ fn check_umad(name: &str, n: usize, child: &[Result<u32, u32>], produced: &[u32]
     Ok(())
 }
 
-fn umad_case(genome: UmadGenome, n: usize, add: f64, del: f64, ctor: Ctor, script: &[u64], probe: &mut Probe) -> Result<(), Fail> {
+fn umad_case(genome: UmadGenome, n: usize, add: f64, del: f64, ctor: Ctor, script: &[u64], closes: &[bool], probe: &mut Probe) -> Result<(), Fail> {
     let gen = NewGenes::new();
     let mut rng = ScriptRng::new(script, 0x0C11);
     let name = format!("Umad<{genome:?}>");
@@ -329,21 +332,30 @@ fn umad_case(genome: UmadGenome, n: usize, add: f64, del: f64, ctor: Ctor, scrip
                 .collect()
         }
         UmadGenome::Plushy => {
-            let parent = Plushy::new((0..n as i64).map(|i| PushGene::Instruction(PushInstruction::push_int(i))));
+            let is_close = |i: usize| closes.get(i).copied().unwrap_or(false);
+            let parent_genes: Vec<PushGene> = (0..n).map(|i| if is_close(i) { PushGene::Close } else { PushGene::Instruction(PushInstruction::push_int(i as i64)) }).collect();
+            let parent = Plushy::new(parent_genes.clone());
             let Ok(child) = mk(ctor, add, del, &gen).mutate(parent, &mut rng);
+            // close markers are indistinguishable: walk the slot grammar P0 N0 P1 N1 ... and give
+            // every surviving gene the leftmost parent position that is still reachable (greedy is
+            // optimal: a smaller slot never hurts later tokens)
+            let mut next_slot = 0usize;
             child
                 .get_genes()
                 .iter()
                 .map(|g| match g {
                     PushGene::Instruction(PushInstruction::InputVar(v)) => {
+                        let slot = if next_slot % 2 == 1 { next_slot } else { next_slot + 1 };
+                        next_slot = slot + 1;
                         Err(v.to_string().trim_start_matches("new").parse::<u32>().unwrap_or(u32::MAX))
                     }
-                    PushGene::Instruction(i) => {
-                        // recover the literal from its Display form "Int-Push(k)"
-                        let s = i.to_string();
-                        Ok(s.trim_start_matches("Int-Push(").trim_end_matches(')').parse::<u32>().unwrap_or(u32::MAX))
-                    }
-                    PushGene::Close => Ok(u32::MAX),
+                    other => match (next_slot.div_ceil(2)..n).find(|j| parent_genes[*j] == *other) {
+                        Some(j) => {
+                            next_slot = 2 * j + 1;
+                            Ok(j as u32)
+                        }
+                        None => Ok(u32::MAX),
+                    },
                 })
                 .collect()
         }
@@ -416,7 +428,8 @@ pub fn oracle(case: &Case, probe: &mut Probe) -> Result<(), Fail> {
             del,
             ctor,
             script,
-        } => umad_case(*genome, *len, *add, *del, *ctor, script, probe),
+            closes,
+        } => umad_case(*genome, *len, *add, *del, *ctor, script, closes, probe),
     }
 }
 
@@ -447,13 +460,14 @@ pub fn strategy(max_len: usize) -> BoxedStrategy<Case> {
         rate01(),
         prop_oneof![3 => Just(Ctor::New), 2 => rate01().prop_map(Ctor::WithEmptyRate), 2 => Just(Ctor::WithoutEmpty)],
         script(),
+        prop_oneof![1 => Just(vec![]), 2 => prop::collection::vec(prop::bool::weighted(0.35), 0..=max_len)],
     )
-        .prop_map(|(genome, len, add, del, ctor, script)| Case::Umad { genome, len, add, del, ctor, script });
+        .prop_map(|(genome, len, add, del, ctor, script, closes)| Case::Umad { genome, len, add, del, ctor, script, closes });
     prop_oneof![1 => flip, 2 => umad].boxed()
 }
 
 pub fn run(ctx: &mut Ctx) {
-    ctx.rule = "flip mutators (WithRate with rates {0, 1, >1} u (0,1); WithOneOverLength) on Vec<bool>, Bitstring, Vec<TagBit>, Vector<TagBit> (genes carry position and a negation flag); UMAD through all three constructors on Vector<tagged genes>, Plushy (parent gene i = literal i, new genes from a disjoint alphabet with fresh serials) and Bitstring (sizes only), lengths 0.., generated random stream. non-trivial = len >= 2, a rate strictly inside (0,1), child differs from parent; distinct by JSON encoding".into();
+    ctx.rule = "flip mutators (WithRate with rates {0, 1, >1} u (0,1); WithOneOverLength) on Vec<bool>, Bitstring, Vec<TagBit>, Vector<TagBit> (genes carry position and a negation flag); UMAD through all three constructors on Vector<tagged genes>, Plushy (parent gene i = literal i or a close marker, new genes from a disjoint alphabet with fresh serials) and Bitstring (sizes only), lengths 0.., generated random stream. non-trivial = len >= 2, a rate strictly inside (0,1), child differs from parent; distinct by JSON encoding".into();
     let (n, len) = ctx.tier.pick((1_000_000u32, 40usize), (12_000_000, 120));
     ctx.run_prop("mutations", n, move || strategy(len), oracle);
 }
